@@ -127,7 +127,7 @@ Definition rollback (s : store) (b : batch) : store := s.
 
 (* ---------- errors (projection of the Go error values) *)
 Inductive err := EIllegalKey | EIllegalValue | EBucketExist | EBucketNotFound | EInvalidBucketName
-               | EIllegalBucketPath | EWriteNotAllowed | ENotSupported | EOther.
+               | EIllegalBucketPath | EWriteNotAllowed | ENotSupported | EClosed | EOther.
 Inductive result (A : Type) := Ok (a : A) | Err (e : err).
 Arguments Ok {A} a.
 Arguments Err {A} e.
@@ -511,7 +511,7 @@ Fixpoint drain (fuel : nat) (it : iter) : list (bytes * bytes) :=
 
 (* ---------- the operation language of the correspondence runs (cmd/c11) and its interpreter *)
 Inductive op :=
-| OBegin (w : bool) | OCommit | ORollback | OREnd | OUBegin | OUEnd (fail : bool) | OReopen | ODump
+| OBegin (w : bool) | OCommit | ORollback | OREnd | OUBegin | OUEnd (fail : bool) | OClose | OReopen | ODump
 | OTop (w : bool) (dst : nat) (name : bytes)
 | OCreateTop (dst : nat) (name : bytes)
 | ODeleteTop (name : bytes)
@@ -543,14 +543,15 @@ Inductive res :=
 
 Record state := mkState {
   st_store : store;                          (* the committed LevelDB *)
+  st_open : bool;                            (* LevelDB.closed = false *)
   st_wtx : option batch;                     (* open write transaction *)
   st_upd : bool;                             (* ... opened by db.Update *)
-  st_rtx : bool;                             (* open read transaction *)
+  st_rtx : option store;                     (* open read transaction: the store committed when it began *)
   st_bs : list (option (bool * handle));     (* bucket slots: (belongs to the write tx, handle) *)
   st_is : list (option (bool * iter))        (* iterator slots *)
 }.
 Definition nslots : nat := 8.
-Definition init_state : state := mkState [] None false false (repeat None nslots) (repeat None nslots).
+Definition init_state : state := mkState [] true None false None (repeat None nslots) (repeat None nslots).
 
 Fixpoint set_nth {A} (n : nat) (x : A) (l : list A) : list A :=
   match l, n with
@@ -563,21 +564,28 @@ Definition get_slot {A} (n : nat) (l : list (option A)) : option A :=
 Definition drop_tx {A} (w : bool) (l : list (option (bool * A))) : list (option (bool * A)) :=
   map (fun o => match o with Some (w', x) => if Bool.eqb w w' then None else o | None => None end) l.
 
-Definition with_store (st : state) (s : store) : state :=
-  mkState s (st_wtx st) (st_upd st) (st_rtx st) (st_bs st) (st_is st).
 Definition with_batch (st : state) (ob : option batch) : state :=
-  mkState (st_store st) ob (st_upd st) (st_rtx st) (st_bs st) (st_is st).
+  mkState (st_store st) (st_open st) ob (st_upd st) (st_rtx st) (st_bs st) (st_is st).
 Definition with_bs (st : state) (bs : list (option (bool * handle))) : state :=
-  mkState (st_store st) (st_wtx st) (st_upd st) (st_rtx st) bs (st_is st).
+  mkState (st_store st) (st_open st) (st_wtx st) (st_upd st) (st_rtx st) bs (st_is st).
 Definition with_is (st : state) (l : list (option (bool * iter))) : state :=
-  mkState (st_store st) (st_wtx st) (st_upd st) (st_rtx st) (st_bs st) l.
+  mkState (st_store st) (st_open st) (st_wtx st) (st_upd st) (st_rtx st) (st_bs st) l.
+Definition with_open (st : state) (o : bool) : state :=
+  mkState (st_store st) o (st_wtx st) (st_upd st) (st_rtx st) (st_bs st) (st_is st).
 Definition end_wtx (st : state) (s : store) : state :=
-  mkState s None false (st_rtx st) (drop_tx true (st_bs st)) (drop_tx true (st_is st)).
+  mkState s (st_open st) None false (st_rtx st) (drop_tx true (st_bs st)) (drop_tx true (st_is st)).
 
-(* the transaction view a slot's owner reads through: None = not open *)
-Definition tx_view (st : state) (w : bool) : option (option batch) :=
-  if w then match st_wtx st with Some b => Some (Some b) | None => None end
-  else if st_rtx st then Some None else None.
+(* The store and batch a transaction reads through; None = that transaction is not open.
+   A write transaction reads the database itself plus its batch (tx.get / tx.iter with snap = nil).
+   A read transaction: with [snap = true] (the repaired code: BeginReadTx takes GetSnapshot, every read of the
+   transaction is served from it) the store committed when it began; with [snap = false] (the code as first
+   found) whatever is committed at the moment of each read. *)
+Definition tx_view (snap : bool) (st : state) (w : bool) : option (store * option batch) :=
+  if w then match st_wtx st with Some b => Some (st_store st, Some b) | None => None end
+  else match st_rtx st with
+       | Some s0 => Some (if snap then s0 else st_store st, None)
+       | None => None
+       end.
 Definition put_handle (st : state) (w : bool) (dst : nat) (oh : option handle) : state * res :=
   match oh with
   | Some h => (with_bs st (set_nth dst (Some (w, h)) (st_bs st)), ROk)
@@ -612,17 +620,31 @@ Definition dump (s : store) : list (bytes * result (list (bytes * bytes))) :=
                                    end) names
   end.
 
-Definition step (st : state) (o : op) : state * res :=
+(* operations through a bucket slot: the slot's handle and the view of its transaction *)
+Definition slot_view (snap : bool) (st : state) (src : nat) : option (bool * handle * store * option batch) :=
+  match get_slot src (st_bs st) with
+  | None => None
+  | Some (w, h) => match tx_view snap st w with
+                   | None => None
+                   | Some (vs, ob) => Some (w, h, vs, ob)
+                   end
+  end.
+
+Definition step_gen (snap : bool) (st : state) (o : op) : state * res :=
   let s := st_store st in
   match o with
   | OBegin true =>
       match st_wtx st with
       | Some _ => (st, RSkip)
-      | None => (with_batch st (Some empty_batch), ROk)
+      | None => if st_open st then (with_batch st (Some empty_batch), ROk) else (st, RErr EClosed)
       end
   | OBegin false =>
-      if st_rtx st then (st, RSkip)
-      else (mkState s (st_wtx st) (st_upd st) true (st_bs st) (st_is st), ROk)
+      match st_rtx st with
+      | Some _ => (st, RSkip)
+      | None => if st_open st
+                then (mkState s true (st_wtx st) (st_upd st) (Some s) (st_bs st) (st_is st), ROk)
+                else (st, RErr EClosed)
+      end
   | OCommit =>
       match st_wtx st with
       | Some b => if st_upd st then (st, RSkip) else (end_wtx st (commit s b), ROk)
@@ -634,13 +656,16 @@ Definition step (st : state) (o : op) : state * res :=
       | None => (st, RSkip)
       end
   | OREnd =>
-      if st_rtx st
-      then (mkState s (st_wtx st) (st_upd st) false (drop_tx false (st_bs st)) (drop_tx false (st_is st)), ROk)
-      else (st, RSkip)
+      match st_rtx st with
+      | Some _ => (mkState s (st_open st) (st_wtx st) (st_upd st) None (drop_tx false (st_bs st)) (drop_tx false (st_is st)), ROk)
+      | None => (st, RSkip)
+      end
   | OUBegin =>
       match st_wtx st with
       | Some _ => (st, RSkip)
-      | None => (mkState s (Some empty_batch) true (st_rtx st) (st_bs st) (st_is st), ROk)
+      | None => if st_open st
+                then (mkState s true (Some empty_batch) true (st_rtx st) (st_bs st) (st_is st), ROk)
+                else (st, RErr EClosed)
       end
   | OUEnd fail =>
       match st_wtx st with
@@ -650,16 +675,21 @@ Definition step (st : state) (o : op) : state * res :=
                   else (st, RSkip)
       | None => (st, RSkip)
       end
-  | OReopen =>
-      match st_wtx st with
-      | Some _ => (st, RSkip)
-      | None => if st_rtx st then (st, RSkip) else (st, ROk)
+  | OClose =>
+      match st_wtx st, st_rtx st with
+      | None, None => if st_open st then (with_open st false, ROk) else (st, RSkip)
+      | _, _ => (st, RSkip)
       end
-  | ODump => (st, RDump (dump s))
+  | OReopen =>
+      match st_wtx st, st_rtx st with
+      | None, None => (with_open st true, ROk)
+      | _, _ => (st, RSkip)
+      end
+  | ODump => if st_open st then (st, RDump (dump s)) else (st, RDump [([], Err EClosed)])
   | OTop w dst name =>
-      match tx_view st w with
+      match tx_view snap st w with
       | None => (st, RSkip)
-      | Some ob => put_handle st w dst (top_level_bucket s ob name)
+      | Some (vs, ob) => put_handle st w dst (top_level_bucket vs ob name)
       end
   | OCreateTop dst name =>
       match st_wtx st with
@@ -675,105 +705,74 @@ Definition step (st : state) (o : op) : state * res :=
       | Some _ => (st, RErr ENotSupported)
       end
   | OTxNames w =>
-      match tx_view st w with
+      match tx_view snap st w with
       | None => (st, RSkip)
-      | Some ob => match tx_bucket_names s ob with Ok l => (st, RNames l) | Err e => (st, RErr e) end
+      | Some (vs, ob) => match tx_bucket_names vs ob with Ok l => (st, RNames l) | Err e => (st, RErr e) end
       end
   | OFetch w dst src =>
-      match tx_view st w, get_slot src (st_bs st) with
-      | Some ob, Some (_, h) => put_handle st w dst (fetch_bucket s ob h)
+      match tx_view snap st w, get_slot src (st_bs st) with
+      | Some (vs, ob), Some (_, h) => put_handle st w dst (fetch_bucket vs ob h)
       | _, _ => (st, RSkip)
       end
   | ONew dst src name =>
-      match get_slot src (st_bs st) with
+      match slot_view snap st src with
       | None => (st, RSkip)
-      | Some (w, h) =>
-          match tx_view st w with
-          | None => (st, RSkip)
-          | Some ob => match new_bucket s ob h name with
-                       | (Ok sub, ob') => (with_bs (store_batch st w ob') (set_nth dst (Some (w, sub)) (st_bs st)), ROk)
-                       | (Err e, ob') => (store_batch st w ob', RErr e)
-                       end
+      | Some (w, h, vs, ob) =>
+          match new_bucket vs ob h name with
+          | (Ok sub, ob') => (with_bs (store_batch st w ob') (set_nth dst (Some (w, sub)) (st_bs st)), ROk)
+          | (Err e, ob') => (store_batch st w ob', RErr e)
           end
       end
   | OBucket dst src name =>
-      match get_slot src (st_bs st) with
+      match slot_view snap st src with
       | None => (st, RSkip)
-      | Some (w, h) => match tx_view st w with
-                       | None => (st, RSkip)
-                       | Some ob => put_handle st w dst (bucket s ob h name)
-                       end
+      | Some (w, h, vs, ob) => put_handle st w dst (bucket vs ob h name)
       end
   | ODelBucket src name =>
-      match get_slot src (st_bs st) with
+      match slot_view snap st src with
       | None => (st, RSkip)
-      | Some (w, h) => match tx_view st w with
-                       | None => (st, RSkip)
-                       | Some ob => let '(r, ob') := delete_bucket s ob h name in (store_batch st w ob', res_of_unit r)
-                       end
+      | Some (w, h, vs, ob) => let '(r, ob') := delete_bucket vs ob h name in (store_batch st w ob', res_of_unit r)
       end
   | ONames src =>
-      match get_slot src (st_bs st) with
+      match slot_view snap st src with
       | None => (st, RSkip)
-      | Some (w, h) => match tx_view st w with
-                       | None => (st, RSkip)
-                       | Some ob => match bucket_names s ob h with Ok l => (st, RNames l) | Err e => (st, RErr e) end
-                       end
+      | Some (w, h, vs, ob) => match bucket_names vs ob h with Ok l => (st, RNames l) | Err e => (st, RErr e) end
       end
   | OPut src k v =>
-      match get_slot src (st_bs st) with
+      match slot_view snap st src with
       | None => (st, RSkip)
-      | Some (w, h) => match tx_view st w with
-                       | None => (st, RSkip)
-                       | Some ob => let '(r, ob') := bucket_put ob h k v in (store_batch st w ob', res_of_unit r)
-                       end
+      | Some (w, h, vs, ob) => let '(r, ob') := bucket_put ob h k v in (store_batch st w ob', res_of_unit r)
       end
   | ODel src k =>
-      match get_slot src (st_bs st) with
+      match slot_view snap st src with
       | None => (st, RSkip)
-      | Some (w, h) => match tx_view st w with
-                       | None => (st, RSkip)
-                       | Some ob => let '(r, ob') := bucket_delete ob h k in (store_batch st w ob', res_of_unit r)
-                       end
+      | Some (w, h, vs, ob) => let '(r, ob') := bucket_delete ob h k in (store_batch st w ob', res_of_unit r)
       end
   | OGet src k =>
-      match get_slot src (st_bs st) with
+      match slot_view snap st src with
       | None => (st, RSkip)
-      | Some (w, h) => match tx_view st w with
-                       | None => (st, RSkip)
-                       | Some ob => match bucket_get s ob h k with Some v => (st, RVal v) | None => (st, RNil) end
-                       end
+      | Some (w, h, vs, ob) => match bucket_get vs ob h k with Some v => (st, RVal v) | None => (st, RNil) end
       end
   | OClear src =>
-      match get_slot src (st_bs st) with
+      match slot_view snap st src with
       | None => (st, RSkip)
-      | Some (w, h) => match tx_view st w with
-                       | None => (st, RSkip)
-                       | Some ob => let '(r, ob') := clear s ob h in (store_batch st w ob', res_of_unit r)
-                       end
+      | Some (w, h, vs, ob) => let '(r, ob') := clear vs ob h in (store_batch st w ob', res_of_unit r)
       end
   | OPfx src p =>
-      match get_slot src (st_bs st) with
+      match slot_view snap st src with
       | None => (st, RSkip)
-      | Some (w, h) => match tx_view st w with
-                       | None => (st, RSkip)
-                       | Some ob => (st, REntries (get_by_prefix s ob h p))
-                       end
+      | Some (w, h, vs, ob) => (st, REntries (get_by_prefix vs ob h p))
       end
   | OIter dst src mode start limit =>
-      match get_slot src (st_bs st) with
+      match slot_view snap st src with
       | None => (st, RSkip)
-      | Some (w, h) =>
-          match tx_view st w with
-          | None => (st, RSkip)
-          | Some ob =>
-              let '(a, l) := match mode with
-                             | O => ([], [])
-                             | S O => (start, limit)
-                             | _ => match bytes_prefix start with (a, Some l) => (a, l) | (a, None) => (a, []) end
-                             end in
-              (with_is st (set_nth dst (Some (w, new_iterator s ob h a l)) (st_is st)), ROk)
-          end
+      | Some (w, h, vs, ob) =>
+          let '(a, l) := match mode with
+                         | O => ([], [])
+                         | S O => (start, limit)
+                         | _ => match bytes_prefix start with (a, Some l) => (a, l) | (a, None) => (a, []) end
+                         end in
+          (with_is st (set_nth dst (Some (w, new_iterator vs ob h a l)) (st_is st)), ROk)
       end
   | OSeek i k =>
       match get_slot i (st_is st) with
@@ -794,3 +793,7 @@ Definition step (st : state) (o : op) : state * res :=
       end
   | OBytesPrefix p => let '(a, l) := bytes_prefix p in (st, RRange a l)
   end.
+
+(* the code as it is now (read transactions read one snapshot) and as it was first found *)
+Definition step : state -> op -> state * res := step_gen true.
+Definition step_unrepaired : state -> op -> state * res := step_gen false.
